@@ -36,5 +36,11 @@ int overload(int a);
 int overload(double a, int b);
 int * getArray(int *n);
 int * getRaw();
+struct Pair { int a; double b; };
+double sumPair(const Pair &p);
+void scalePair(Pair &p, double f);
+int firstOf(const Pair *p);
+template<typename T> T half(T v);
+template<typename T> T biggest();
 }
 #endif
